@@ -711,9 +711,52 @@ let run_wirenum (payload : string) : string =
             | None -> "err " ^ hex_or_dash bs))
   | _ -> failwith "bad wirenum payload"
 
+
+(* autogen: "<family>|<root id>|<senv>|<env>|<seeds>|<values>" *)
+let senv_of (x : sx) : (M.z * M.sfield list) list =
+  match x with
+  | L (A "senv" :: ds) ->
+      List.map (function
+          | L (A id :: fs) ->
+              (z_of_dec id,
+               List.map (function
+                   | L [A "f"; A name; A exp; A anon; A tag; t] ->
+                       { M.sf_name = hexarg name; M.sf_exported = (exp = "1"); M.sf_anon = (anon = "1");
+                         M.sf_tag = hexarg tag; M.sf_type = gtype_of t }
+                   | _ -> failwith "bad sfield") fs)
+          | _ -> failwith "bad senv") ds
+  | _ -> failwith "bad senv"
+
+let print_cands (cs : M.cand list) : string =
+  String.concat " " (List.map (fun c ->
+      Printf.sprintf "(fld %s (%s) %s %d 0)" (hex_or_dash_b c.M.c_name)
+        (String.concat " " (List.map (fun n -> string_of_int (int_of_nat n)) c.M.c_route))
+        (print_gtype c.M.c_type) (if c.M.c_omit then 1 else 0)) cs)
+
+let run_autogen (payload : string) : string =
+  match String.split_on_char '|' payload with
+  | [_fam; root; senv_s; env_s; _seeds; vals] ->
+      let senv = match parse_sx senv_s with [x] -> senv_of x | _ -> failwith "senv" in
+      let env = match parse_sx env_s with [x] -> env_of x | _ -> failwith "env" in
+      let root = z_of_dec root in
+      let modes = List.map (fun m ->
+          Printf.sprintf "m%d=%s" m (print_cands (M.explore senv root (z_of_int m)))) [0; 1; 2] in
+      let spec = List.for_all (fun m -> M.explore_matches_spec senv root (z_of_int m)) [0; 1; 2] in
+      let atl = { M.a_entries = List.map (fun (id, _) -> M.autogen_entry senv id (z_of_int 0)) senv; M.a_mode = z_of_int 0 } in
+      let vs = List.mapi (fun k v ->
+          let r = match M.marshal_top env atl (M.GStruct root) (gval_of v) with
+            | M.MOk ts -> Printf.sprintf "ok %d | %s" (List.length ts) (print_tokens ts)
+            | M.MErr [] -> "binderr 0 | "
+            | M.MErr ts -> Printf.sprintf "err %d | %s" (List.length ts) (print_tokens ts)
+            | M.MFuel -> "fuel" in
+          Printf.sprintf "v%d=%s" k r) (parse_sx vals) in
+      String.concat ";" (modes @ [Printf.sprintf "spec=%d" (if spec then 1 else 0)] @ vs)
+  | _ -> failwith "bad autogen payload"
+
 let dispatch (suite : string) (payload : string) : string =
   match suite with
   | "wirenum" -> run_wirenum payload
+  | "autogen" -> run_autogen payload
   | "untrusted" -> run_untrusted payload
   | "maporder" -> run_maporder payload
   | "remarshal" -> run_remarshal payload
